@@ -157,18 +157,9 @@ class BreakerFlow(Client):
         cond = ev.node.info["cond"]
         if adm == "ASKED" and isinstance(cond, ast.Attribute) and cond.attr == "allowed":
             return ("AD" if branch else "REJ", recs, flags)
-        if (
-            adm == "NA"
-            and isinstance(cond, ast.Compare)
-            and len(cond.ops) == 1
-            and isinstance(cond.ops[0], (ast.Is, ast.IsNot))
-            and isinstance(cond.left, ast.Attribute)
-            and cond.left.attr == "breaker"
-            and isinstance(cond.comparators[0], ast.Constant)
-            and cond.comparators[0].value is None
-        ):
-            if isinstance(cond.ops[0], ast.Is) == branch:
-                return ("NB", recs, flags)  # there is no breaker on this path
+        if adm == "NA" and breaker_absent(ev.env):
+            # the refined environment says `<ctx>.breaker is None` (tested directly, through a walrus or a local alias)
+            return ("NB", recs, flags)  # there is no breaker on this path
         return cs
 
 
